@@ -194,7 +194,6 @@ pub fn run(tier: &str) -> Report {
     // family 1: flat jump graphs
     let (k, max_jumps, bound) = if thorough { (6, 3, 6) } else { (5, 2, 5) };
     for kk in 1..=k {
-        let bound = if !thorough && kk == 5 { 3 } else { bound };
         let stats = explore_dfs(bound, if thorough { 3_000_000 } else { 400_000 }, &|ch| gen_flat(ch, kk, max_jumps), &mut |_, (body, nj)| {
             if nj >= 1 && seen.insert(body.clone()) { bodies.push((body, "flat")); }
         });
@@ -230,7 +229,7 @@ pub fn run(tier: &str) -> Report {
     }
     if let Some(b) = bodies.last() { rep.sample(json!({"body": b.0, "family": b.1})); }
     rep.exhaustive = true;
-    rep.bound_completed = format!("flat graphs: k<={k} slots, <={max_jumps} jumps, every target assignment (deviations<={bound}; quick tier: k=5 limited to 3 deviations); structured: deviations<={b2}, depth<={d2}; {tables_done}/{} intrinsic tables; {} valuations x difficulties 0,1", cfgs.len(), vals.len());
+    rep.bound_completed = format!("flat graphs: k<={k} slots, <={max_jumps} jumps, every target assignment (deviations<={bound}); structured: deviations<={b2}, depth<={d2}; {tables_done}/{} intrinsic tables; {} valuations x difficulties 0,1", cfgs.len(), vals.len());
     rep.rule = "E-DFS over G-flat (marker / time label / jump of 8 kinds to any of k+1 label positions / interrupt label / difficulty-tagged statement) and G-block; distinct = distinct source text with >= 1 jump or block; non-trivial = block recovery changed the decompiled text".into();
     rep.assumptions = vec!["truth::vm::AstVm is the reference interpreter on both sides".into(), "jumps into recovered blocks are executed after desugar_blocks (validated separately by C06)".into()];
     rep.explanation = "compile body -> RawInstrs -> (Raiser + postprocess_decompiled) with blocks off and on -> structural clauses on the two texts (time-label sequence, timed gotos, label reference counts) -> both texts re-parsed and executed by AstVm".into();
